@@ -276,12 +276,20 @@ BIN = {"mul", "add", "div", "pow"}
 LOGIC = {"and", "or", "not"}
 
 
-def csl(name, terminals, levels, lits=("two", "i"), powlit=True, **kw):
+# conditionals below a compared operand, by the coded type of (condition, true value, false value); "!": the
+# conditional has a non-real value in the complex environment
+COND_NEED = ("rrr", "rrc!", "rcr!")
+
+
+def csl(name, terminals, levels, lits=("two", "i"), powlit=True, need=(), **kw):
+    """need: classes of conditionals below a compared operand (CplxTypes: CondKind) the slice is built for;
+    the run fails as a machinery error when TLC generates no program of such a class (vacuity)."""
     levels = [set(l) for l in levels]
     kw.setdefault("idx", ())
     kw.setdefault("mikinds", ("fixed",))
     sl = Slice(name, terminals, set(), len(levels), lits=[LIT[k] for k in lits], finalops=MODE, levels=levels, only_final=True, nenv=2, **kw)
     sl.powlit = powlit
+    sl.need = tuple(need)
     return sl
 
 
@@ -296,6 +304,11 @@ def slices(tier):
         csl("types1", [F, H] if q else [F, H, V], [UN | BIN | {"neg"}, MM, MODE], lits=("two", "i", "half")),
         # [comparison][conditional][pass]
         csl("cond1", [F, V] if q else [F, G, V], [CMP, {"cond"}, MODE], lits=("zero", "i")),
+        # [comparison][conditional][min/max OF the conditional][pass]: a conditional as a compared operand.  It
+        # has no handler: expr() types it by the condition AND both values; every combination of a real / complex
+        # true and false value is generated, under conditions lt(a, b) and lt(b, a) so that either branch is the
+        # one selected in the complex environment
+        csl("cond-op", [F, V], [{"lt"}, {"cond"}, {"max", "min"}, MODE], lits=("two",), need=COND_NEED),
         # powers with a non-literal exponent (CheckComparisons.power evaluates float(exponent))
         csl("pow-exp", [F, V, H], [{"pow"}, {"max"}, MODE], lits=("two",), powlit=False),
         # vectors: inner/outer/dot/index/abs of a complex and a real vector
@@ -452,6 +465,7 @@ class Judge:
     def __init__(self, ctx, sl, pool, w):
         self.ctx, self.sl, self.pool, self.w = ctx, sl, pool, w
         self.stats = {}
+        self.gen = {}        # what TLC generated, by class (independent of what the code does): vacuity guards
         self.diverged = []
 
     def bump(self, k):
@@ -466,6 +480,8 @@ class Judge:
         prog = rec["prog"]
         p = prog[-1]["op"]
         pred = rec["verdict"]
+        for kd in rec.get("condops", ()):
+            self.gen[kd] = self.gen.get(kd, 0) + 1
         ctx.traces(1)
         objs, err = rpl.build(w, prog)
         allobjs = w.init + objs
@@ -498,6 +514,11 @@ class Judge:
         self.bump(f"{p}:model-{pred}:code-{real}")
         if nontrivial and real == pred:
             ctx.distinct(self.sl.name + repr(prog))
+        if real == pred:
+            for kd in rec.get("condops", ()):
+                self.bump(f"{p}:{pred}:conditional-compared:{kd}")
+            if rec.get("wit"):
+                self.bump(f"{p}:{pred}:witnessed")
         if real == "reject":
             if pred == "reject":
                 if rec.get("inc"):
@@ -626,6 +647,9 @@ def replay_phase(ctx, sl, pool, res, tamper=None):
         if tamper:
             tamper(rec)
         j(rec)
+    missing = [kd for kd in getattr(sl, "need", ()) if not j.gen.get(kd)]
+    if missing:
+        raise MachineryError(f"vacuous: slice {sl.name} generated no program with a conditional of class {missing} below a compared operand (generated: {dict(sorted(j.gen.items()))})")
     ctx.cov.setdefault("slices", []).append({"slice": sl.name, "programs": len(seen), "tlc_states": res.distinct, "status": dict(sorted(j.stats.items()))})
     return j, len(seen)
 
